@@ -8,7 +8,7 @@ from mc import pool, seams, parser_engine as E, words
 from mc.refsieve import table as T
 from . import parser_common as PC
 
-TAG_KINDS = ["plain", "str", "num", "sl", "sl-scalar", "values", "two"]
+TAG_KINDS = ["plain", "str", "num", "sl", "sl-scalar", "values", "two", "sl-values"]
 POS_KINDS = ["s", "n", "sl"]
 EXT = "vnd.Example.x-Ext"  # capability strings are compared as written: the name has upper-case letters on purpose
 
@@ -61,6 +61,11 @@ def build(defn, k):
             d["extra_arg"] = {"type": "string", "values": ['"v1"', '"High"'], "required": False}
             slots.append({t: (None, "s", ('"v1"', '"High"'))})
             param_syms += ['"v1"', '"zz"', '"High"', '"high"']
+        elif kind == "sl-values":
+            # a list-typed parameter restricted to a value set: a scalar must be in the set, a list must not hold a member outside it
+            d["extra_arg"] = {"type": "stringlist", "values": ['"v1"', '"High"'], "required": False}
+            slots.append({t: (None, "sl", ('"v1"', '"High"'))})
+            param_syms += ['"v1"', '"zz"', '[ "zz" , "v1" ]', '[ "v1" , "zz" , "High" ]', '[ "v1" ]']
         elif kind == "two":
             t2 = ":u%d" % i
             d["values"] = [t, t2]
